@@ -359,6 +359,7 @@ def regular_points(run):
     `pow(as.buck 1000 0.2 32, as.constant 2)` is negative beyond r ~ 2.4): a**n is differentiable there."""
     rng = run.rng
     cases = []
+    first_only = []
     for _ in range(run.n(6, 60)):
         cases.append(("as.bornmayer", pfo.bornmayer(rnd(rng, 50, 5000, 1), rnd(rng, 0.1, 0.6)), 0.0))
         cases.append(("as.morse", pfo.morse(rnd(rng, 0.5, 3.0, 2), rnd(rng, 0.5, 4.0, 2), rnd(rng, 0.1, 8, 2)), 0.0))
@@ -371,6 +372,15 @@ def regular_points(run):
             r = rnd(rng, 3.0, 8.0, 3)
             if pfo.buck(A, rho, C)(r) < 0:
                 cases.append(("pow(as.buck %r %r %r, as.constant %g) where the base is negative" % (A, rho, C, n), f, r))
+        # (4) a component WITHOUT analytic derivative inside a sum / product, evaluated at r = 0 and a few 1e-7 above it: the numerical fallback straddles zero
+        #     (r - h/2 < 0), which is fine for a function that is regular there
+        k1, k0 = rnd(rng, -5, 5, 2), rnd(rng, -5, 5, 2)
+        lin = lambda r, k1=k1, k0=k0: k1 * r + k0 + 0.5 * r * r          # no .deriv attribute
+        #     (first derivative only: the nested central difference behind deriv2 of such a component is accurate to about 1e-4, section 6.0 of DESIGN.md)
+        for rr in (0.0, 2e-7, 4e-7):
+            first_only.append(("plus(<callable %r*r + %r + r^2/2 without deriv>, as.constant 1.0) near r = 0" % (k1, k0), ap.plus(lin, pfo.constant(1.0)), rr, k1 + rr))
+            first_only.append(("product(<callable %r*r + %r + r^2/2 without deriv>, as.polynomial 2.0 1.0) near r = 0" % (k1, k0), ap.product(lin, pfo.polynomial(2.0, 1.0)), rr,
+                               (k1 + rr) * (2.0 + rr) + lin(rr)))
         # (3) a base that is exactly ZERO at the point, exponent a constant >= 1: (r - c)**n is differentiable at r = c (a table row can fall on it)
         c = float(rng.randint(1, 6)) / 2
         for n in (1.0, 2.0, 3.0):
@@ -384,6 +394,17 @@ def regular_points(run):
             p = "the value itself raises %s (%s) at r = %r, where the form is regular" % (type(e).__name__, e, r)
         else:
             p = deriv_problem(f, r)
+        if p:
+            nb += 1
+            if nb <= 3:
+                run.fail("deriv-mismatch", "%s: %s" % (what, p), dict(form=what, r=r))
+    for what, f, r, slope in first_only:
+        run.case(key=("regular-point", what, r), kind="oracle/regular-point")
+        try:
+            d = f.deriv(r)
+            p = None if abs(d - slope) <= 1e-6 * max(1.0, abs(slope)) else "deriv(%r) = %r but dE/dr = %r" % (r, d, slope)
+        except (OverflowError, ZeroDivisionError, ValueError) as e:
+            p = "deriv(%r) raises %s (%s)" % (r, type(e).__name__, e)
         if p:
             nb += 1
             if nb <= 3:
